@@ -179,7 +179,32 @@ func joinTerms(ts []*Term) string {
 }
 
 // Equal compares canonical forms.
-func (t *Term) Equal(u *Term) bool { return t.String() == u.String() }
+func (t *Term) Equal(u *Term) bool {
+	if t.String() == u.String() {
+		return true
+	}
+	return StripFullSlice(t).String() == StripFullSlice(u).String()
+}
+
+// StripFullSlice rewrites x[:] to x everywhere in t. A full slice expression denotes the same elements as its operand;
+// where operand and result types differ (array vs slice) only one of the two forms type-checks in a given context, so
+// treating them as equal cannot equate two programs that both compile and behave differently.
+func StripFullSlice(t *Term) *Term {
+	if t == nil {
+		return nil
+	}
+	if t.Op == "slice" && len(t.Args) == 3 && t.Args[1].Op == "const" && t.Args[1].Val == "" && t.Args[2].Op == "const" && t.Args[2].Val == "" {
+		return StripFullSlice(t.Args[0])
+	}
+	if len(t.Args) == 0 {
+		return t
+	}
+	n := &Term{Op: t.Op, Val: t.Val, Type: t.Type, Src: t.Src}
+	for _, a := range t.Args {
+		n.Args = append(n.Args, StripFullSlice(a))
+	}
+	return n
+}
 
 // Field builds t.f1.f2…
 func (t *Term) Field(path ...string) *Term {
@@ -751,6 +776,11 @@ func (e *Eval) eval(v ssa.Value, path []string, at ssa.Instruction) *Term {
 	case *ssa.Call:
 		return e.callTerm(x).Field(path...)
 	case *ssa.Extract:
+		if call, ok := x.Tuple.(*ssa.Call); ok {
+			if in := e.inlineTuple(call, x.Index); in != nil {
+				return in.Field(path...)
+			}
+		}
 		return mk("extract", fmt.Sprint(x.Index), e.Select(x.Tuple, nil, at)).Field(path...)
 	case *ssa.TypeAssert:
 		return mk("assert", typeStr(x.AssertedType), e.Select(x.X, nil, at)).Field(path...)
@@ -895,6 +925,100 @@ func (e *Eval) inlinePure(c *ssa.Call, args []*Term) *Term {
 		arg := a
 		if arg.Op == "addr" && len(arg.Args) == 1 {
 			arg = arg.Args[0] // pointer to a local: field selection goes through the content
+		}
+		out = out.Subst(mk("param", fmt.Sprintf("__%d", i)), arg)
+	}
+	return out
+}
+
+// pureExternal lists external functions whose results depend on their arguments only (no state, no effect):
+// helpers that call only these stay "expression functions" for inlineTuple.
+var pureExternal = map[string]bool{
+	"strconv.ParseFloat": true, "strconv.ParseInt": true, "strconv.ParseUint": true, "strconv.Atoi": true,
+	"strconv.FormatFloat": true, "strconv.FormatInt": true, "strconv.Itoa": true,
+	"math.Round": true, "math.RoundToEven": true, "math.Floor": true, "math.Ceil": true, "math.Trunc": true,
+	"strings.TrimPrefix": true, "strings.TrimSuffix": true, "strings.ToLower": true, "strings.ToUpper": true,
+	"encoding/hex.DecodeString": true, "encoding/hex.EncodeToString": true, "encoding/json.Marshal": true,
+}
+
+// inlineTuple: result idx of a call of an in-module helper with several results. The helper must have no effect
+// (no store outside its own locals, no map update, send, go, defer, panic; calls only of pureExternal functions) and
+// either a single return, or — with a trailing error result — exactly one return whose error is the nil constant.
+// Result idx (not the error) is then that return's value with the arguments substituted; this is the value every
+// caller sees on the success path, which is the only path on which a caller may use it. Keeps provenance stable
+// when `v, err := parse(x); …; round(v*k)` is moved into a helper.
+func (e *Eval) inlineTuple(c *ssa.Call, idx int) *Term {
+	callee := c.Common().StaticCallee()
+	if callee == nil || !InModule(callee) || callee == e.Fn || inlineBusy[callee] || callee.Blocks == nil {
+		return nil
+	}
+	nres := callee.Signature.Results().Len()
+	if nres < 2 || idx >= nres || c.Common().IsInvoke() || len(callee.Params) != len(c.Common().Args) {
+		return nil
+	}
+	errIdx := -1
+	if IsErrorType(callee.Signature.Results().At(nres - 1).Type()) {
+		errIdx = nres - 1
+	}
+	var rets, okRets []*ssa.Return
+	for _, b := range callee.Blocks {
+		for _, ins := range b.Instrs {
+			switch x := ins.(type) {
+			case *ssa.Store:
+				if _, isAlloc := x.Addr.(*ssa.Alloc); !isAlloc {
+					return nil
+				}
+			case ssa.CallInstruction:
+				if _, isB := x.Common().Value.(*ssa.Builtin); isB {
+					continue
+				}
+				if !pureExternal[CalleeName(x.Common())] {
+					return nil
+				}
+			case *ssa.MapUpdate, *ssa.Send, *ssa.Go, *ssa.Defer, *ssa.Panic:
+				return nil
+			case *ssa.Return:
+				rets = append(rets, x)
+				if errIdx >= 0 && IsNilConst(x.Results[errIdx]) {
+					okRets = append(okRets, x)
+				}
+			}
+		}
+	}
+	var ret *ssa.Return
+	switch {
+	case len(rets) == 1:
+		ret = rets[0]
+	case errIdx >= 0 && idx != errIdx && len(okRets) == 1:
+		ret = okRets[0]
+	default:
+		return nil
+	}
+	inlineBusy[callee] = true
+	defer delete(inlineBusy, callee)
+	ce := For(callee)
+	rt := ce.Select(ret.Results[idx], nil, ret)
+	if rt.IsUnknown() || rt.Has(func(t *Term) bool {
+		switch t.Op {
+		case "opaque", "phi", "loop", "alloc", "closure", "dyn", "after", "copyof", "makemap":
+			return true
+		}
+		return false
+	}) {
+		return nil
+	}
+	var args []*Term
+	for _, a := range c.Common().Args {
+		args = append(args, e.argTerm(a, c))
+	}
+	out := rt
+	for i := range args {
+		out = out.Subst(Param(i), mk("param", fmt.Sprintf("__%d", i)))
+	}
+	for i, a := range args {
+		arg := a
+		if arg.Op == "addr" && len(arg.Args) == 1 {
+			arg = arg.Args[0]
 		}
 		out = out.Subst(mk("param", fmt.Sprintf("__%d", i)), arg)
 	}
